@@ -252,6 +252,9 @@ class Oracle:
         self.prev_killed = False
         self.rep_after_noop = False
         self.tainted = False
+        self.moved_since_key = False
+        self.loose_rep = False
+        self.vi_kill = None       # (text before, cursor) of an x / D that immediately precedes
 
     def step(self, op, before, status, after):
         k = op[0]
@@ -279,14 +282,19 @@ class Oracle:
         eff = 20 if (k == 4 and sel0) else k
         rep = (not had_arg) and self.prev is not None and self.prev[0] == eff
         self.rep_after_noop = rep and not self.prev_killed
+        # buffer.cursor_position = v (op 19) is not a key: the KeyProcessor still sees a repeat, but the
+        # kills are no longer next to each other in the text, so the property demands nothing about
+        # accumulation for the first kill after it (either form is accepted)
+        self.loose_rep = rep and self.moved_since_key
         bad = self._step(k, arg, had_arg, rep, op, name, status, t0, c0, ring0, sel0, regs0, t1, c1, ring1, regs1, head0)
         # bookkeeping for the clauses that relate consecutive commands
         if k != 19 and status == 0:
             kills = (1, 2, 3, 5, 6) + ((4,) if not sel0 else ())
-            killed = ring1 != ring0
+            # (a full ring of identical entries receiving the same entry again looks unchanged)
+            killed = ring1 != ring0 or (k in kills and k != 6 and t1 != t0 and len(ring0) >= 60)
             if k in kills or (k in (4, 18) and sel0):
                 accumulating = rep and self.prev_killed and k in (2, 3, 4, 5)
-                if killed and self.rep_after_noop:
+                if killed and (self.rep_after_noop or self.loose_rep):
                     self.tainted = True          # the head now starts with an unrelated entry (finding C09-F1) ...
                 elif killed and not accumulating:
                     self.tainted = False
@@ -304,11 +312,16 @@ class Oracle:
                 self.paste_base = None
             self.prev = (eff, had_arg)
             self.prev_killed = killed
+            self.moved_since_key = False
+            self.vi_kill = (t0, c0) if (k in (31, 33) and ring1 != ring0 and t1 != t0) else None
         elif k == 19:
             if c1 != c0:
                 self.paste_base = None
+                self.moved_since_key = True
             self.kill_base = None
+            self.vi_kill = None
         else:
+            self.vi_kill = None
             self.prev = None
             self.prev_killed = False
             self.kill_base = None
@@ -334,10 +347,14 @@ class Oracle:
             return (name + ": removed %r but the kill ring is untouched" % removed, "kill-ring")
         acc = rep and not self.rep_after_noop
         want = (head0 + removed if fwd else removed + head0) if acc else removed
+        accumulated = _ring_after_push(ring0, [S(head0 + removed if fwd else removed + head0), 0])
+        if self.loose_rep and ring1 in (accumulated, _ring_after_push(ring0, [S(removed), 0])):
+            return None
         if ring1 != _ring_after_push(ring0, [S(want), 0]):
             got = unS(ring1[0][0]) if ring1 else None
             fam = "kill-accumulate" if acc else "kill-ring"
-            if self.rep_after_noop and ring1 == _ring_after_push(ring0, [S(head0 + removed if fwd else removed + head0), 0]):
+            # finding C09-F1 is about kill-word (the forward word kill) only
+            if fwd and self.rep_after_noop and ring1 == accumulated:
                 fam = "kill-accumulate-after-noop"
             return ("%s: removed %r, ring head %r, expected %r%s" % (
                 name, removed, got, want, " (accumulated with the previous kill)" if acc else
@@ -465,6 +482,12 @@ class Oracle:
                 data = r[0]
             if ring1 != ring0 or regs1 != regs0:
                 return ("paste changed a register", "vi-paste-register")
+            # C09_vi_x/D_then_paste_restores: right after x / D, P restores when the cursor fix-up left the
+            # cursor at the kill position, p restores when it moved it
+            if k in (36, 37) and not had_arg and self.vi_kill is not None:
+                tb, ck = self.vi_kill
+                if (k == 37) == (c0 == ck) and t1 != tb:
+                    return ("%s right after x/D did not restore the text %r" % (name, tb), "vi-kill-paste-restore")
             want = paste_spec(t0, c0, unS(data[0]), data[1], k in (37, 39), arg)
             if t1 != want:
                 return ("%s x%d of %r (type %d): text %r, expected %r" % (name, arg, unS(data[0]), data[1], t1, want),
@@ -516,7 +539,12 @@ class Oracle:
             if ty == 1:
                 la, _ = _line_bounds(t0, a)
                 _, le = _line_bounds(t0, e)
-                ok = [t0[:la] + t0[le:], t0[:la] + t0[le + 1:]] + ([t0[:la - 1] + t0[le:]] if la > 0 else [])
+                if le == len(t0):
+                    # the selection ends on the last line: its content goes; the line ending before it may
+                    # stay (as the code does: an empty last line remains, observation O6) or go with it
+                    ok = [t0[:la] + t0[le:]] + ([t0[:la - 1] + t0[le:]] if la > 0 else [])
+                else:
+                    ok = [t0[:la] + t0[le + 1:]]
                 if t1 not in ok:
                     return (name + ": text' is not text without the selected lines", "vi-cut-lines")
                 return None
